@@ -1,1 +1,3 @@
+# the relay driver needs only the relay sources and core/Types.o (peer id <-> hex)
 EXTRA_relay := relay/EventLoop.o relay/RelayServer.o
+EXCL_relay  := $(filter-out core/Types.o,$(CORE_SRC:.cpp=.o))
